@@ -16,7 +16,7 @@ import random
 
 from simkit.driver import Check, base_result
 from ref import codec as C
-from checks.worlda import (WorldA, draw_knobs, draw_sched, NODE_HOST, NODE_REALM,
+from checks.worlda import (WorldA, bystander_for, bystander_cost, draw_knobs, draw_sched, NODE_HOST, NODE_REALM,
                            PEER_HOST, PEER_REALM)
 
 TAG = 99999
@@ -146,6 +146,7 @@ class C04(Check):
             bursts = [{"msgs": list(range(n)), "style": rng.choice(["whole", "boundaries", "random"]), "ncuts": 3,
                        "cutseed": rng.getrandbits(30), "gap": 0.0, "at": 0.0}]
         return {"mode": mode, "msgs": msgs, "bursts": bursts, "max_steps": 6_000_000 + 30000 * n,
+                "bystander": bystander_for(index),
                 "consumer_early": rng.random() < 0.5,
                 # the peer ends the connection with a DPR right behind its last message: everything it sent
                 # before must still reach the application (an eager consumer is running)
@@ -258,13 +259,15 @@ class C04(Check):
         n = len(refs)
         # liveness bound: polling intervals plus the simulated CPU time the node
         # needs to parse and tick through n messages (every step costs a quantum)
-        D = 3.0 + 4 * n * tick + w.world.knobs["TRACKING_SOCKET_EVENTS_TIMEOUT"] + n * 40000 * sim.quantum
+        D = 3.0 + 4 * n * tick + w.world.knobs["TRACKING_SOCKET_EVENTS_TIMEOUT"] + n * 40000 * sim.quantum + \
+            bystander_cost(scn, sim.quantum)
         stats = {"split_msgs": 0, "coalesced": 0, "segments": 0, "delivered": 0, "opened": False}
         expected = [msg_key_ref(m) for m, s in zip(refs, scn["msgs"]) if s["kind"].startswith("app")]
 
         def main(sim):
             if scn.get("consumer_early") and scn["mode"] == "CLIENT":
                 pass
+            w.maybe_bystander()
             w.start_node()
             if not w.wait_state(("I-Open", "R-Open"), 20.0):
                 stats["opened"] = False
@@ -334,6 +337,8 @@ class C04(Check):
             sim.sleep(min(1.0, 20 * tick + 0.1))
 
         sim.run_main(main)
+        if w.by_rec is not None:
+            stats["bystander"] = w.by_rec["ret"] or w.by_rec["exc"] or "unfinished"
 
         # ---------------- oracle ----------------
         if sim.halt_reason in ("max_steps", "horizon"):
